@@ -27,7 +27,11 @@ import (
 //	5 both time-outs, server speaks first inside the handler before the wait as well
 const vC13HT = 60 * time.Millisecond
 
-func vC13TimeoutVariant(v int) (ok bool, detail string) {
+// One attempt with handshake time-out ht.  retry = the opening handshake itself did not complete
+// within ht (a slow machine, not the property under test): the caller tries again with a longer
+// one.  Every other inequality points the safe way: the wait is a Sleep, a slow scheduler only
+// makes it longer, and the deadlines under test are already in the past when it ends.
+func vC13TimeoutAttempt(v int, vC13HT time.Duration) (ok bool, detail string, retry bool) {
 	msgs := [][]byte{{}, []byte("hello"), vC13Gen(v+1, 10000), []byte("x")}
 	var mu sync.Mutex
 	fail := func(f string, a ...interface{}) {
@@ -79,8 +83,7 @@ func vC13TimeoutVariant(v int) (ok bool, detail string) {
 	h := http.HandlerFunc(func(w http.ResponseWriter, r *http.Request) {
 		c, err := up.Upgrade(w, r, nil)
 		if err != nil {
-			fail("Upgrade: %v", err)
-			srvDone <- true
+			srvDone <- true // the client's Dial fails too and decides about a retry
 			return
 		}
 		defer c.Close()
@@ -114,7 +117,7 @@ func vC13TimeoutVariant(v int) (ok bool, detail string) {
 	for n := 0; n < dials; n++ {
 		c, _, err := d.Dial(url, nil)
 		if err != nil {
-			return false, fmt.Sprintf("Dial %d: %v", n, err)
+			return false, fmt.Sprintf("Dial %d with handshake time-out %v: %v", n, vC13HT, err), true
 		}
 		if v == 3 && (tcfg.ServerName != "" || !tcfg.InsecureSkipVerify) {
 			fail("Dial modified the caller's tls.Config (ServerName %q)", tcfg.ServerName)
@@ -137,8 +140,8 @@ func vC13TimeoutVariant(v int) (ok bool, detail string) {
 			select {
 			case <-done:
 			case <-srvDone:
-			case <-time.After(4 * time.Second):
-				fail("exchange did not finish within 4 s")
+			case <-time.After(90 * time.Second):
+				fail("exchange did not finish within 90 s")
 				c.UnderlyingConn().Close()
 			}
 		}
@@ -146,7 +149,19 @@ func vC13TimeoutVariant(v int) (ok bool, detail string) {
 	}
 	mu.Lock()
 	defer mu.Unlock()
-	return detail == "", detail
+	return detail == "", detail, false
+}
+
+func vC13TimeoutVariant(v int) (ok bool, detail string) {
+	ht := vC13HT
+	for attempt := 0; ; attempt++ {
+		var retry bool
+		ok, detail, retry = vC13TimeoutAttempt(v, ht)
+		if !retry || attempt >= 6 {
+			return
+		}
+		ht *= 2 // 60 ms ... 3.8 s
+	}
 }
 
 // all variants at once: the added wall time is one wait, not six
